@@ -261,6 +261,14 @@ def _vf_bin(op: str, l: Any, r: Any) -> Any:
 
 
 def _vf_un(op: str, v: Any) -> Any:
+	if type(v) is bool and op in ('USub', 'UAdd', 'Invert'):
+		# -True / +True / ~True: Python promotes the bool to int, and so does C++ (integral promotion of the operand): same value, an int
+		v = int(v)
+	return _vf_un_strict(op, v)
+
+
+def _vf_un_strict(op: str, v: Any) -> Any:
+	"""unary arithmetic on ints / floats only (what the Lean model `pyEval` claims: stream sem)"""
 	if type(v) not in (int, float):
 		raise OutOfSubset(f'unary {op} on {type(v).__name__}')
 	if op == 'USub':
@@ -550,6 +558,8 @@ def run_python(prog: dict[str, Any], time_limit: float = 3.0) -> dict[tuple[str,
 		'_vf_store': _vf_store, '_vf_call': _vf_call, '_vf_fn': _vf_fn, '_vf_cmp': _vf_cmp,
 		# 'strict_truth' (stream sem): the Lean model `pyEval` claims `not` / `?:` only on bools — narrower than the search's subset
 		'_vf_nb': _vf_b if prog.get('strict_truth') else _vf_nb}
+	if prog.get('strict_truth'):
+		ns['_vf_un'] = _vf_un_strict
 
 	def on_alarm(*_: Any) -> None:
 		raise _Timeout()
